@@ -118,6 +118,19 @@ def _merge_length(a: int | NamedId | None, b: int | NamedId | None) -> int | Nam
     return a if a is not None else b
 
 
+def _common_lengths(a: Type, b: Type) -> Type:
+    """The type of two equal types (up to list lengths) with every list
+    length on which they disagree replaced by ``None``."""
+    match a, b:
+        case ListType(), ListType():
+            length = a.length if a.length == b.length else None
+            return ListType(_common_lengths(a.elt, b.elt), length)
+        case TupleType(), TupleType():
+            return TupleType(*[_common_lengths(x, y) for x, y in zip(a.elts, b.elts)])
+        case _:
+            return a
+
+
 def _drop_symbolic_lengths(ty: Type) -> Type:
     """Replace every *symbolic* (``NamedId``) list length with ``None``,
     keeping concrete ``int`` lengths.  Applied when instantiating a callee's
@@ -258,7 +271,12 @@ class _TypeInferInstance(Visitor):
                 first = cast(Type, elt_tys[0])
                 if any(e != first for e in elt_tys):
                     return None
-                return ListType(first, len(val))
+                # `ListType` equality ignores lengths: rows of a ragged list
+                # compare equal, so keep only the lengths every row agrees on
+                elt_ty = first
+                for e in elt_tys[1:]:
+                    elt_ty = _common_lengths(elt_ty, cast(Type, e))
+                return ListType(elt_ty, len(val))
             case _:
                 return None
 
